@@ -6,10 +6,13 @@
 (*   "Design"    g    = the graph observed after designed_network()           -> the C08 clauses of DesignGraph  *)
 (*   "Export"    x    = projected network_to_json of a designed network; every Export after the first one is    *)
 (*                      the export of  design(load(previous export))          -> Fixpoint* clauses               *)
-(*   "Twin"      x    = export of a second, independent design of the same input as the last Export              *)
+(*   "Twin"      x    = export of a second, independent design of the same input as the last Export (in the same   *)
+(*                      process after "Elsewhere" designs, or in a process with another history)                  *)
 (*                                                                            -> Deterministic                   *)
 (*   "Elsewhere" = another designed_network() call (other options: an explicit design power) was made with the   *)
 (*                      same equipment library between the design just exported and its Twin                     *)
+(*   "Reexport"  x    = export of the same in-memory network after the reference propagation ran on it             *)
+(*                                                                            -> ExportUnaffectedByPropagation   *)
 (*   "Propagate" r, slack = result vector of the reference propagation on the network just exported; slack is    *)
 (*                      the export-rounding allowance for the comparison with the previous one                   *)
 (*                                                                            -> PropagationReproduced           *)
@@ -41,9 +44,11 @@ DesignClauses(In, G, S) ==
         \cup (IF ~shape THEN {} ELSE
               Check("RoadmReachabilityUnchanged", RoadmReachabilityUnchanged(In, G))
               \cup Check("NothingLostNothingInvented", NothingLostNothingInvented(In, G))
-              \cup Check("EveryJunctionAmplified", EveryJunctionAmplified(G))
+              \cup Check("NoInsertionWhenNotAsked", NoInsertionWhenNotAsked(In, G, S))
+              \cup Check("VoaIsAttenuation", VoaIsAttenuation(G))
+              \cup Check("EveryJunctionAmplified", ~S.insert \/ EveryJunctionAmplified(G))
               \cup Check("AmplifiersOnlyAtJunctions", AmplifiersOnlyAtJunctions(In, G))
-              \cup Check("SplitIsEqualAndConservative", SplitIsEqualAndConservative(In, G, S))
+              \cup Check("SplitIsEqualAndConservative", ~S.insert \/ SplitIsEqualAndConservative(In, G, S))
               \cup Check("EveryAmpConfigured", EveryAmpConfigured(G, S))
               \cup Check("EveryFiberHasConnectors", EveryFiberHasConnectors(G))
               \cup Check("DefaultConnectorsApplied", DefaultConnectorsApplied(In, G, S))
@@ -87,6 +92,11 @@ Next ==
             [] e.op = "Sim" ->
                  /\ viol' = viol \cup {<<i + 1, c>> : c \in Check("SimParamsUnchanged", e.before = e.after)}
                  /\ UNCHANGED <<lastX, lastR, diff>>
+            [] e.op = "Reexport" ->       \* the network just exported is exported again after it carried a propagation
+                 /\ LET p == NormX(T[tid].ev[lastX].x)  x == NormX(e.x)
+                    IN /\ viol' = viol \cup {<<i + 1, c>> : c \in Check("ExportUnaffectedByPropagation", p = x)}
+                       /\ diff' = diff \cup (IF p = x THEN {} ELSE SettingsDiff(p, x))
+                 /\ UNCHANGED <<lastX, lastR>>
             [] e.op = "Elsewhere" ->      \* the same library was used for another design (explicit power): nothing to judge
                  UNCHANGED <<lastX, lastR, viol, diff>>
             [] OTHER ->
